@@ -672,13 +672,15 @@ theorem processBunch_inv (c : Conn) (x : Channel) (b : Bunch) (h : RecvInv c) (h
     split
     · rename_i hahead
       split
-      · rename_i q hq
-        refine setChan_recvinv c _ x _ h hx ⟨hci.dl, hci.live, hci.bound, hci.homo, hci.part, ?_⟩
-        intro y hy
-        rcases enqueue_mem' b x.inRec q hq y hy with rfl | hy
-        · simp only [Bool.and_eq_true] at hahead; exact ⟨rfl, hahead.1⟩
-        · exact hci.queue y hy
       · exact h.of_rsame (emit_rsame _ _ rfl)
+      · split
+        · rename_i q hq
+          refine setChan_recvinv c _ x _ h hx ⟨hci.dl, hci.live, hci.bound, hci.homo, hci.part, ?_⟩
+          intro y hy
+          rcases enqueue_mem' b x.inRec q hq y hy with rfl | hy
+          · simp only [Bool.and_eq_true] at hahead; exact ⟨rfl, hahead.1⟩
+          · exact hci.queue y hy
+        · exact h.of_rsame (emit_rsame _ _ rfl)
     · rename_i hnext
       refine receivedNextBunch_inv c b h ?_
       intro x' hx' hrel
